@@ -51,7 +51,10 @@ HttpOk(st, ok, good) == IF st = 0 \/ (ok /\ st = good) \/ (~ok /\ Is4xx(st)) THE
 (* C13 (and C12 when the request was built by the command line client): the front end's answer is the *)
 (* answer the Store API gives to the same question in the same state (E.same, established by the harness *)
 (* by asking again past the front end; nothing runs in between)                                          *)
-FrontEnd == IF E.via = "api" \/ E.same THEN {} ELSE IF E.via = "cli" THEN {"C13", "C12"} ELSE {"C13"}
+\* ("nu": the commands xs gives to scripts - what a script reads and writes through them is what the store holds:  *)
+\*  C06 names `.cat` / `.head` inside scripts, C12 the values crossing into nu and back)                           *)
+FrontFault == IF E.via = "cli" THEN {"C13", "C12"} ELSE IF E.via = "nu" THEN {"C06", "C12"} ELSE {"C13"}
+FrontEnd == IF E.via = "api" \/ E.same THEN {} ELSE FrontFault
 
 ReEvict(h) == [h EXCEPT !.evictable = h.evictable \cup EvictableNow(h)]
 
@@ -64,11 +67,11 @@ EvAppend ==
   /\ Is("append")
   /\ Judge(IF ~E.front
            \* refused by the front end, accepted by the Store API a moment later: the front end's fault alone
-           THEN (IF E.via = "cli" THEN {"C13", "C12"} ELSE {"C13"})
+           THEN FrontFault
            ELSE LET v == AppendVerdict(g, E.ctx, E.topic, E.ttl, E.meta, E.hash, E.ok, E.id, FrameOf(E.f)) IN
                 \* what a front end hands to the store is what it was asked to append
                 v \cup HttpOk(E.status, E.ok, 200)
-                  \cup (IF E.via # "api" /\ E.ok /\ "C12" \in v THEN {"C13"} ELSE {}))
+                  \cup (IF E.via # "api" /\ E.ok /\ "C12" \in v THEN FrontFault ELSE {}))
   /\ IF ~E.ok THEN UNCHANGED <<g, owed>>
      ELSE LET f == FrameOf(E.f) IN
           IF f.ttl = Eph
